@@ -77,6 +77,8 @@ def execute(case, mode):
     if env.HOOKS is not None:
         env.HOOKS.set_callback(mon)
     Win = W.copy()
+    if case.get('layout') == 'F':
+        Win = np.asfortranarray(Win)
     exc = None
     out = None
     try:
@@ -103,7 +105,7 @@ def execute(case, mode):
             facts = [('shape', 'return value could not be judged: %r' % (e,))]
     elif outcome == 'crash':
         facts = [('crash:' + type(exc).__name__, '%s raised %s: %s' % (routine, type(exc).__name__, str(exc)[:200]))]
-    res = {'routine': routine, 'outcome': outcome, 'ndraws': rng.ndraws, 'forced': rng._st.forced, 'fired': rng.fired(), 'trace': rng.trace(),
+    res = {'routine': routine, 'outcome': outcome, 'ndraws': rng.ndraws, 'forced': rng._st.forced, 'fired': rng.fired(), 'trace': rng.trace(), 'tail_draws': rng.tail_draws(),
            'digest': rng.digest(), 'states': mon.states, 'swaps': mon.swaps, 'breach': mon.breach, 'probes': {}, 'extra': {}}
     moved = outcome == 'ok' and not np.array_equal(np.asarray(out[0]), W)
     res['nontrivial'] = bool(mon.swaps > 0 or moved)
@@ -152,8 +154,11 @@ class _Scn(object):
             W = W.astype(rnd.choice((np.int64, np.int32)))  # signed integer container
         elif rnd.random() < 0.06:
             W = W.astype(np.float32)
-        return {'scn': self.ID, 'routine': routine, 'W': enc(W), 'params': params, 'seed': sub, 'policy': rewire.pick_policy(rnd),
+        case = {'scn': self.ID, 'routine': routine, 'W': enc(W), 'params': params, 'seed': sub, 'policy': rewire.pick_policy(rnd),
                 'budget': 60000, 'trace': None, 'meta': meta}
+        if rnd.random() < 0.08:
+            case['layout'] = 'F'
+        return case
 
     def execute(self, case, mode):
         return execute(case, mode)
